@@ -1071,7 +1071,7 @@ LAYOUT = ["arith", "iter", "vec", "str", "flex", "macro", "guards"]
 BRIDGE_OF = {
     "C01": LAYOUT, "C02": LAYOUT, "C03": LAYOUT, "C04": LAYOUT, "C05": LAYOUT, "C06": LAYOUT, "C07": LAYOUT, "C10": LAYOUT,
     "C11": ["arith", "vec", "str"], "C12": ["arith", "flex", "guards"], "C13": ["arith", "vec", "str", "flex", "guards"], "C14": LAYOUT, "C15": LAYOUT,
-    "C16": ["portable"], "C17": LAYOUT, "C18": LAYOUT, "C19": ["arith", "iter", "macro", "vec", "flex"], "C20": LAYOUT, "C08": [], "C09": [],
+    "C16": ["portable"], "C17": LAYOUT, "C18": LAYOUT, "C19": ["arith", "iter", "macro", "vec", "flex", "guards"], "C20": LAYOUT, "C08": [], "C09": [],
 }
 def regenerate_formulas():
     rc, out = sh([sys.executable, os.path.join(VERIF, "tools", "extract_formulas.py")], env={"VERIF_REPO": REPO})
